@@ -529,12 +529,12 @@ def wrapTrace (port : Int) (locErr blocked cont : Bool) : List String :=
   else ["location", "newRequestInfo", "isBlockedByAccess"] ++
     (if blocked then []
      else "handleDeviceResult" ::
-       (if !cont then [] else if locErr then ["processLocationErr"]
+       (if !cont then ["serveDeviceErr"] else if locErr then ["serveLocationErr"]
         else ["ContextWithRequestInfo", "serveWithRatelimiting"])) ++ ["Put"]
 
 theorem wrap_trace (mw : S_ratelimitmw_Middleware) (port : Int) (lc : Option S_geoip_Location × Option S_dnsmsg_ECS × Option String)
-    (ri : S_agd_RequestInfo) (blocked : Bool) (hd : Bool × Option String) (le next : Option String) (cx : AbsPtr) :
-    (Wrap_handler mw () port () lc (some ri) blocked hd le cx next).map (fun x => names x.2) =
+    (ri : S_agd_RequestInfo) (blocked : Bool) (hd : Bool × Option String) (de le next : Option String) (cx : AbsPtr) :
+    (Wrap_handler mw () port () lc (some ri) blocked hd de le cx next).map (fun x => names x.2) =
       some (wrapTrace port lc.2.2.isSome blocked hd.1) := by
   unfold Wrap_handler wrapTrace
   by_cases h0 : port = 0
